@@ -448,9 +448,10 @@ class Unknown(Exception):
     pass
 
 
-def eval_test(expr: ast.AST, env: dict):
+def eval_test(expr: ast.AST, env: dict, defs=None, _depth: int = 0):
     """Evaluate a test expression under a partial environment name -> value
-    (values: None or the string "SOME" for a non-None truthy object).  Raises Unknown."""
+    (values: None or the string "SOME" for a non-None truthy object).  `defs(name)` may
+    return the single defining expression of a local name.  Raises Unknown."""
     SOME = "SOME"
 
     def ev(e):
@@ -459,6 +460,10 @@ def eval_test(expr: ast.AST, env: dict):
         if isinstance(e, ast.Name):
             if e.id in env:
                 return env[e.id]
+            if defs is not None and _depth < 4:
+                d = defs(e.id)
+                if d is not None:
+                    return eval_test(d, env, defs, _depth + 1) if _is_boolish(d) else ev_sub(d)
             raise Unknown(e.id)
         if isinstance(e, ast.Subscript) and isinstance(e.value, ast.Name) and e.value.id in env:
             v = env[e.value.id]
@@ -518,7 +523,14 @@ def eval_test(expr: ast.AST, env: dict):
             return True
         return bool(v)
 
+    def ev_sub(d):
+        return ev(d)
+
     return truth(ev(expr))
+
+
+def _is_boolish(e: ast.AST) -> bool:
+    return isinstance(e, (ast.Compare, ast.BoolOp)) or (isinstance(e, ast.UnaryOp) and isinstance(e.op, ast.Not))
 
 
 # ----------------------------------------------------------------------------- tiny concrete evaluator
@@ -553,8 +565,13 @@ def ceval(expr: ast.AST, env: dict):
             return (not v) if isinstance(v, bool) else ~v
         raise Unknown("unary")
     if isinstance(expr, ast.BoolOp):
-        vals = [ceval(v, env) for v in expr.values]
-        return all(vals) if isinstance(expr.op, ast.And) else any(vals)
+        for v in expr.values:  # short-circuit like Python
+            r = ceval(v, env)
+            if isinstance(expr.op, ast.And) and not r:
+                return False
+            if isinstance(expr.op, ast.Or) and r:
+                return True
+        return isinstance(expr.op, ast.And)
     if isinstance(expr, ast.BinOp):
         a, b = ceval(expr.left, env), ceval(expr.right, env)
         table = {ast.Add: op.add, ast.Sub: op.sub, ast.Mult: op.mul, ast.BitAnd: op.and_, ast.BitOr: op.or_, ast.FloorDiv: op.floordiv, ast.Mod: op.mod}
@@ -578,6 +595,8 @@ def ceval(expr: ast.AST, env: dict):
         return True
     if isinstance(expr, ast.IfExp):
         return ceval(expr.body, env) if ceval(expr.test, env) else ceval(expr.orelse, env)
+    if isinstance(expr, ast.Call) and (dotted(expr.func) or "").split(".")[-1] in ("array_equal", "array_equiv", "allclose") and len(expr.args) >= 2:
+        return ceval(expr.args[0], env) == ceval(expr.args[1], env)
     if isinstance(expr, ast.Call) and isinstance(expr.func, ast.Name) and expr.func.id in ("bool", "int", "str") and len(expr.args) == 1:
         return {"bool": bool, "int": int, "str": str}[expr.func.id](ceval(expr.args[0], env))
     raise Unknown(txt)
